@@ -73,6 +73,9 @@ type Backend struct {
 	// "reject…", "early…", "panic…", anything else: accept); used by the
 	// history explorers, whose backend must be stateless.
 	ByContent bool
+	// Override, if set, decides the result of NewSession/Mail/Rcpt/Data
+	// (ok=false: fall back to the address convention).
+	Override func(kind, arg string) (err error, ok bool)
 	// Probe, if set, is called inside NewSession with the Conn.
 	Probe func(c *smtp.Conn)
 }
@@ -125,6 +128,13 @@ func (b *Backend) NewSession(c *smtp.Conn) (smtp.Session, error) {
 	e := &Event{Kind: "NewSession", Helo: c.Hostname(), TLS: isTLS}
 	if b.Probe != nil {
 		b.Probe(c)
+	}
+	if b.Override != nil {
+		if err, ok := b.Override("NewSession", c.Hostname()); ok && err != nil {
+			e.Ret = "error"
+			b.add(e)
+			return nil, err
+		}
 	}
 	if strings.HasPrefix(c.Hostname(), "fail") {
 		e.Ret = "error"
@@ -201,6 +211,11 @@ func RcptOptsString(o *smtp.RcptOptions) string {
 func (s *sess) Mail(from string, opts *smtp.MailOptions) (err error) {
 	e := s.b.add(&Event{Sess: s.id, Kind: "Mail", Arg: from, Opts: MailOptsString(opts)})
 	defer func() { e.Ret = errStr(err); e.Ended = true }()
+	if s.b.Override != nil {
+		if oerr, ok := s.b.Override("Mail", from); ok {
+			return oerr
+		}
+	}
 	if err = decide(from); err == nil {
 		s.from = from
 	}
@@ -210,6 +225,11 @@ func (s *sess) Mail(from string, opts *smtp.MailOptions) (err error) {
 func (s *sess) Rcpt(to string, opts *smtp.RcptOptions) (err error) {
 	e := s.b.add(&Event{Sess: s.id, Kind: "Rcpt", Arg: to, Opts: RcptOptsString(opts)})
 	defer func() { e.Ret = errStr(err); e.Ended = true }()
+	if s.b.Override != nil {
+		if oerr, ok := s.b.Override("Rcpt", to); ok {
+			return oerr
+		}
+	}
 	if err = decide(to); err == nil {
 		s.rcpts = append(s.rcpts, to)
 	}
